@@ -244,6 +244,19 @@ def run (lines : Array String) : Driver.Report := Id.run do
                 | _, none => (w, 0, none)
               let saved := match st.saved with | some s => some s | none => some w.file
               (step w1 (.tamperFile (corruption fid kind)), "ok", true, saved, foreign)
+          | ["torn"] =>
+            -- the queued fs operation runs, the process dies in the middle of it; a temp-file
+            -- write leaves a truncated temp file, a rename / read leaves nothing special
+            (match w.proc with
+             | none => (w, "err:down", st.tampered, st.saved, st.foreign)
+             | some _ =>
+               let w1 := step w .fs
+               if w1.proc.isNone then (w1, "ok:none" ++ (resultOf w .fs w1).drop 2, st.tampered, st.saved, st.foreign)
+               else
+                 let tmpWrite := ["boot_wtmp", "last_wtmp", "prep_wtmp", "start_wtmp"].contains (phase w)
+                 let w2 := step w1 .crash
+                 if tmpWrite then (step w2 (.corruptTmp (some .bad)), "ok:tmp", st.tampered, st.saved, st.foreign)
+                 else (w2, "ok:none", st.tampered, st.saved, st.foreign))
           | _ =>
             match parseAction rest with
             | some a =>
@@ -256,6 +269,7 @@ def run (lines : Array String) : Driver.Report := Id.run do
         if res.endsWith "exit:unreadable" then r := r.bump "exit_unreadable"
         if res.endsWith "exit:submitter" then r := r.bump "exit_submitter"
         if rest.headD "" = "crash" ∧ res = "ok" then r := r.bump s!"crash_at_{phase w}"
+        if rest.headD "" = "torn" ∧ res.startsWith "ok" then r := r.bump s!"torn_at_{phase w}"
         if rest.headD "" = "fs" ∧ res.startsWith "ok" then r := r.bump s!"fs_at_{phase w}"
         if rest.headD "" = "bcast" ∧ res.startsWith "ok" then r := r.bump s!"bcast_{rest.getD 1 ""}"
         if rest.headD "" = "gettx" then r := r.bump s!"gettx_{res}_at_{phase w}"
